@@ -6,6 +6,7 @@
 #define BOTH(ret, name, ...) ret name(__VA_ARGS__); ret slice_##name(__VA_ARGS__);
 #define ZZD(W, ST, UT) BOTH(UT, S2U_i##W, ST) BOTH(ST, U2S_u##W, UT)
 ZZD(8, int8_t, uint8_t) ZZD(16, int16_t, uint16_t) ZZD(32, int32_t, uint32_t) ZZD(64, int64_t, uint64_t)
+BOTH(int, MostSignificantBit, uint32_t) BOTH(int, CountOneBits32, uint32_t) BOTH(uint32_t, ReverseBits32, uint32_t) BOTH(void, CopyBits32, uint32_t *, int, uint32_t, int, int)
 BOTH(void, ConvertSignedIntsToSymbols, const int32_t *, int, uint32_t *)
 BOTH(void, ConvertSymbolsToSignedInts, const uint32_t *, int, int32_t *)
 #define DBD(SFX, T) BOTH(bool, DecoderBuffer_Peek_##SFX, struct DecoderBuffer *, T *) BOTH(bool, DecoderBuffer_Decode_##SFX, struct DecoderBuffer *, T *) \
@@ -48,6 +49,11 @@ static struct EncoderBuffer mkeb(char *store, int cap, int size) { struct Encode
 
 COSIM_MAIN_BEGIN
   ZZT(8, int8_t, uint8_t) ZZT(16, int16_t, uint16_t) ZZT(32, int32_t, uint32_t) ZZT(64, int64_t, uint64_t)
+  COSIM_BEGIN("MostSignificantBit/CountOneBits32/ReverseBits32/CopyBits32");
+  for (long i = 0; i < iters * 4; ++i) { uint32_t n = (uint32_t)rnd_biased(); if (n) COSIM_EQ(MostSignificantBit(n), slice_MostSignificantBit(n), "msb");
+    COSIM_EQ(CountOneBits32(n), slice_CountOneBits32(n), "popcount"); COSIM_EQ(ReverseBits32(n), slice_ReverseBits32(n), "reverse");
+    int nb = 1 + rnd64() % 32, dof = rnd64() % (33 - nb), sof = rnd64() % (33 - nb); uint32_t d1 = (uint32_t)rnd64(), d2 = d1; CopyBits32(&d1, dof, n, sof, nb); slice_CopyBits32(&d2, dof, n, sof, nb); COSIM_EQ(d1, d2, "copybits"); }
+  COSIM_END();
   COSIM_BEGIN("ConvertSignedIntsToSymbols/ConvertSymbolsToSignedInts");
   for (long i = 0; i < iters; ++i) { int32_t in[9]; uint32_t o1[9], o2[9], uin[9]; int32_t s1[9], s2[9]; int n = rnd64() % 10;
     for (int k = 0; k < 9; ++k) { in[k] = (int32_t)rnd_biased(); uin[k] = (uint32_t)rnd_biased(); o1[k] = o2[k] = 7; s1[k] = s2[k] = 7; }
